@@ -19,3 +19,26 @@ def model_and_behaviours(ctx, nsim_quick, nsim_thorough, depth=27):
     if not behs:
         raise Infra("simulation exported no behaviours")
     return behs
+
+
+def entry_shapes(ctx, prop):
+    """EntryShapes.tla: what a stored entry decodes to, per shape of the submission (case analysis, exported, executed)."""
+    r = ctx.tlc("ctfe", "MCEntryShapes", ctx.pick("EntryShapes.cfg", "EntryShapesBig.cfg"), workers=1, count=False)
+    cases = r.records.get("CASE", [])
+    if not cases:
+        raise Infra("EntryShapes exported no cases")
+    path = ctx.write_ndjson("shapes.ndjson", cases)
+    ctx.go_test("cctfe", run="TestShapes$", env={"VERIF_CASES": path, "VERIF_PROP": prop}, timeout=3000, name="shapes")
+
+
+def external_storage(ctx, nquick=60, nthorough=800):
+    """ChainStore.tla behaviours (storage faults, detached cache writes, restarts with a cold cache) on twin instances:
+    what the direct mode serves is what the external-storage mode serves, or an error."""
+    behs = []
+    for cap in ("Cap0", "Cap1"):
+        r = ctx.tlc("ctfe", "MCChainStore", "ChainStoreSim%s.cfg" % cap, simulate=ctx.pick(nquick, nthorough), depth=34, count=False)
+        behs += r.records.get("BEH", [])
+    if not behs:
+        raise Infra("no ChainStore behaviours")
+    path = ctx.write_ndjson("chainstore.ndjson", behs)
+    ctx.go_test("cctfe", run="TestChainStore$", env={"VERIF_BEHAVIOURS": path}, timeout=3000, name="externalstorage")
